@@ -4,6 +4,7 @@ import Mkdb.Driver.Tuple
 import Mkdb.Driver.Sql
 import Mkdb.Driver.Console
 import Mkdb.Driver.Csv
+import Mkdb.Driver.Exec
 open Mkdb.Driver
 
 def main (args : List String) : IO UInt32 := do
@@ -22,4 +23,6 @@ def main (args : List String) : IO UInt32 := do
   | ["judge", "console"] => judgeLoop stdin stdout ({} : Console.J) Console.judgeLine; return 0
   | ["model", "csv"] => modelLoop stdin stdout ({} : Csv.St) Csv.stepLine; return 0
   | ["judge", "csv"] => judgeLoop stdin stdout ({} : Csv.J) Csv.judgeLine; return 0
+  | ["model", "exec"] => modelLoop stdin stdout ({} : Exec.St) Exec.stepLine; return 0
+  | ["judge", "exec"] => judgeLoop stdin stdout ({} : Exec.J) Exec.judgeLine; return 0
   | _ => IO.eprintln "usage: mkdbdrv model|judge <proto>"; return 2
